@@ -640,7 +640,7 @@ Qed.
    runs inside one handler / id handler / timed handler / open handler. *)
 Definition b2n (b : bool) : nat := if b then 1%nat else 0%nat.
 Definition is_main (k : hkind) : bool := match k with HUser | HError | HComponentHs => false | _ => true end.
-Definition is_main_id (k : idk) : bool := match k with IKBind | IKSession => true | IKLegacy => false end.
+Definition is_main_id (k : idk) : bool := match k with IKBind | IKSession => true | IKLegacy | IKUser => false end.
 Definition client_oh (h : openh) : bool := match h with OpenAuth | OpenTls | OpenSasl | OpenCompress => true | _ => false end.
 Definition is_depth0 (p : pstate) : bool := match p with PDepth0 => true | _ => false end.
 Definition hmarks (s : state) : nat := List.length (filter (fun x => is_main (fst x)) (handlers s)).
@@ -5365,9 +5365,10 @@ Proof. intros; unfold sm_handle, ret; cases; leaf; eauto 30 with qfrdb. Qed.
 Lemma QFr_call_id_handler : forall k n e s0 s, QFr s0 s -> QFr s0 (fst (call_id_handler k n e s)).
 Proof. intros k; destruct k; intros; name_result; unfold call_id_handler, ret; cases; leaf; eauto 30 with qfrdb. Qed.
 
-Lemma Dead_no_id : forall k s, Dead s -> id_has k s = false.
+(* (the user's id handler, IKUser, is no part of the negotiation: it may be registered at any time) *)
+Lemma Dead_no_id : forall k s, is_user_id k = false -> Dead s -> id_has k s = false.
 Proof.
-  intros k s (A & B & C & D). destruct (id_has k s) eqn:E; auto. destruct k; try congruence;
+  intros k s U (A & B & C & D). destruct (id_has k s) eqn:E; auto. destruct k; try congruence; try discriminate U;
     match type of E with id_has ?k' _ = _ => pose proof (imarks_pos k' s eq_refl E) end; lia.
 Qed.
 Lemma idk_eqb_refl : forall k, idk_eqb k k = true. Proof. destruct k; reflexivity. Qed.
@@ -5388,13 +5389,14 @@ Proof.
   - pose proof (imarks_pos_l IKSession l eq_refl B). lia.
   - pose proof (imarks_pos_l IKBind l eq_refl A). lia.
   - auto.
+  - auto.
 Qed.
-Lemma PH_id_step : forall k n e s, PH s -> DL s -> id_has k s = true ->
+Lemma PH_id_step : forall k n e s, is_user_id k = false -> PH s -> DL s -> id_has k s = true ->
   PH (id_del k (fst (call_id_handler k n e s))) /\ DL (id_del k (fst (call_id_handler k n e s))).
 Proof.
-  intros k n e s P L Hk.
+  intros k n e s Uk P L Hk.
   assert (D : st s <> Disconnected).
-  { intros D. rewrite (Dead_no_id k s (L D)) in Hk. discriminate. }
+  { intros D. rewrite (Dead_no_id k s Uk (L D)) in Hk. discriminate. }
   pose proof (StEq_call_id_handler k n e s s (StEq_refl s)) as E. unfold StEq in E.
   set (s1 := fst (call_id_handler k n e s)) in *.
   assert (D' : st (id_del k s1) <> Disconnected) by (change (st (id_del k s1)) with (st s1); congruence).
@@ -5481,7 +5483,10 @@ Proof.
   cbv zeta.
   match goal with |- context [let '(s1, o1) := ?r in _] => assert (R : PH (fst r) /\ DL (fst r)) end.
   { destruct (idk_of (e_id e)) as [k|]; [|cbn; auto]. destruct (id_has k s) eqn:Hk; [|cbn; auto].
-    pose proof (PH_id_step k n e s P2 L2 Hk) as T. destruct (call_id_handler k n e s) as [s1 o1]. cbn [fst] in *. exact T. }
+    destruct (is_user_id k) eqn:Uk; cbn [andb].
+    { (* the user's id handler leaves the state alone *)
+      destruct k; try discriminate Uk. destruct (negb (neg_done s)); cbn; auto. }
+    pose proof (PH_id_step k n e s Uk P2 L2 Hk) as T. destruct (call_id_handler k n e s) as [s1 o1]. cbn [fst] in *. exact T. }
   match goal with |- context [let '(s1, o1) := ?r in _] => destruct r as [s1 o1] end. cbn [fst] in R. destruct R as [P3 L3].
   pose proof (PH_fold_visit n e (map fst (filter (fun x => snd x) (handlers s1))) s1 o1 P3 L3) as [P4 L4].
   destruct (fold_left (visit n e) (map fst (filter (fun x => snd x) (handlers s1))) (s1, o1)) as [s3 o3]. cbn [fst] in *.
@@ -6268,6 +6273,19 @@ Proof.
   apply tkind_eqb_eq in E. cbn [existsb]. rewrite E, K. exact IH.
 Qed.
 
+Lemma imarks_user_only : forall (l : list (idk * bool)),
+  List.length (filter (fun x => is_main_id (fst x)) (filter (fun x => idk_eqb (fst x) IKUser) l)) = 0%nat.
+Proof.
+  induction l as [|x l IH]; [reflexivity|]. cbn [filter]. destruct (fst x) eqn:E; cbn [idk_eqb]; auto.
+  cbn [filter]. rewrite E. exact IH.
+Qed.
+Lemma id_has_user_only : forall k (l : list (idk * bool)), idk_eqb k IKUser = false ->
+  existsb (fun x => idk_eqb k (fst x)) (filter (fun x => idk_eqb (fst x) IKUser) l) = false.
+Proof.
+  intros k l K. induction l as [|x l IH]; [reflexivity|]. cbn [filter]. destruct (fst x) eqn:E; cbn [idk_eqb]; auto.
+  cbn [existsb]. rewrite E, K. exact IH.
+Qed.
+
 Lemma PHS_conn_connect : forall n t s, PHS s -> (t = TComponent -> f_tls_disabled s = true) ->
   PHS (fst (fst (conn_connect n t s))).
 Proof.
@@ -6280,27 +6298,27 @@ Proof.
     unfold conn_reset, prepare_reset. rewrite C. cbv zeta.
     refine (conj _ (conj _ _)); [constructor | | ].
     + refine (conj _ (conj _ _)); sproj; auto; intros; try discriminate; congruence.
-    + unfold marks, hmarks, imarks, pending. sproj. rewrite hmarks_user_only. cbn [List.length filter].
+    + unfold marks, hmarks, imarks, pending. sproj. rewrite hmarks_user_only, imarks_user_only. cbn [List.length filter].
       match goal with |- (0 + 0 + b2n ?b <= 1)%nat => destruct b; cbn; lia end.
     + split.
       * intros _ _. sproj. reflexivity.
       * intros T. exfalso. revert T. unfold timed_has. sproj. rewrite timed_user_only; [discriminate | reflexivity].
     + destruct t.
       * right. refine (conj _ (conj _ _)).
-        -- unfold id_has. sproj. reflexivity.
+        -- unfold id_has. sproj. apply id_has_user_only. reflexivity.
         -- unfold h_has. sproj. apply h_has_user_only. reflexivity.
         -- sproj. destruct (is_raw s); discriminate.
       * left. right. left. sproj. unfold F24 in F. rewrite (Ft eq_refl), andb_true_r in F. exact F.
     + apply SmOff_live. sproj. discriminate.
     + intros En. exfalso. revert En. sproj. congruence.
     + apply T25_live. sproj. discriminate.
-    + intros _. unfold hmarks, imarks. sproj. rewrite hmarks_user_only. auto.
+    + intros _. unfold hmarks, imarks. sproj. rewrite hmarks_user_only, imarks_user_only. auto.
     + unfold F24 in *. sproj. exact F.
   - (* no socket *)
     unfold conn_reset. rewrite C. cbv zeta.
     refine (conj _ (conj _ _)); [constructor | | ].
     + refine (conj _ (conj _ _)); sproj; auto; intros; try discriminate. congruence.
-    + pose proof (ph_amo _ P) as M. unfold marks, hmarks, imarks, pending in *. sproj. rewrite hmarks_user_only. cbn [List.length filter].
+    + pose proof (ph_amo _ P) as M. unfold marks, hmarks, imarks, pending in *. sproj. rewrite hmarks_user_only, imarks_user_only. cbn [List.length filter].
       destruct (client_oh (oh s) && (reset_parser s || is_depth0 (ps s))); cbn; lia.
     + split.
       * intros _ _. sproj. reflexivity.
@@ -6355,6 +6373,25 @@ Proof.
     destruct (ph_se _ P En0) as (A & B & C). rewrite (qfr_q _ _ Q). unfold pending. rewrite (qfr_oh _ _ Q), (qfr_rp _ _ Q), (qfr_ps _ _ Q).
     repeat split; auto. destruct (id_has IKBind (h_add HUser s)) eqn:E; auto. rewrite (qfr_bind _ _ Q E) in B. discriminate.
   - apply T25_h_add, P.
+Qed.
+Lemma PH_id_add_user : forall s, PH s -> PH (id_add IKUser s).
+Proof.
+  intros s P. constructor.
+  - apply TI_id_add, P.
+  - pose proof (Bd_id_add IKUser 0 s s (Bd_refl s)) as B. destruct B as [B ? ? ?]. pose proof (ph_amo _ P). cbn in B. lia.
+  - apply T01_id_add, P.
+  - apply (MT_of (id_add IKUser)); [apply CS_id_add | intros; apply PL_id_add; auto | apply P].
+  - apply SmOff_id_add, P.
+  - intros En. pose proof (QFr_id_add IKUser s s eq_refl (QFr_refl s)) as Q.
+    assert (En0 : sm_enabled s = true) by (revert En; unfold id_add; cases; auto).
+    destruct (ph_se _ P En0) as (A & B & C). rewrite (qfr_q _ _ Q). unfold pending. rewrite (qfr_oh _ _ Q), (qfr_rp _ _ Q), (qfr_ps _ _ Q).
+    repeat split; auto. destruct (id_has IKBind (id_add IKUser s)) eqn:E; auto. rewrite (qfr_bind _ _ Q E) in B. discriminate.
+  - apply T25_id_add, P.
+Qed.
+Lemma imarks_id_add_user : forall s, imarks (id_add IKUser s) = imarks s.
+Proof.
+  intros s. unfold id_add. destruct (id_has IKUser s); [reflexivity|]. unfold imarks. sproj.
+  rewrite filter_length_app. cbn [filter fst is_main_id List.length]. lia.
 Qed.
 Lemma PH_timed_add_user : forall n s, PH s -> PH (timed_add TUser n s).
 Proof.
@@ -6437,11 +6474,11 @@ Proof.
   - destruct (st s) eqn:C; cbn [fst ret]; auto. apply (PHS_disc_cfg s); try reflexivity; auto; apply H.
   - (* OpUserHandlers *)
     destruct (st s) eqn:C; cbn [fst ret]; auto.
-    assert (H1 : PHS (if stanza then h_add HUser s else s)).
-    { destruct stanza; auto. apply (PHS_of s); [apply PH_h_add_user, H | intros X; exfalso; revert X; unfold h_add; cases; sproj; congruence
-        | unfold h_add; cases; reflexivity | unfold h_add; cases; reflexivity | exact H]. }
-    assert (C1 : st (if stanza then h_add HUser s else s) = Disconnected) by (destruct stanza; auto; unfold h_add; cases; auto).
-    generalize dependent (if stanza then h_add HUser s else s). intros x H1 C1.
+    assert (H1 : PHS (if stanza then id_add IKUser (h_add HUser s) else s)).
+    { destruct stanza; auto. apply (PHS_of s); [apply PH_id_add_user, PH_h_add_user, H | intros X; exfalso; revert X; unfold id_add, h_add; cases; sproj; congruence
+        | unfold id_add, h_add; cases; reflexivity | unfold id_add, h_add; cases; reflexivity | exact H]. }
+    assert (C1 : st (if stanza then id_add IKUser (h_add HUser s) else s) = Disconnected) by (destruct stanza; auto; unfold id_add, h_add; cases; auto).
+    generalize dependent (if stanza then id_add IKUser (h_add HUser s) else s). intros x H1 C1.
     assert (H2 : PHS (match timed with Some _ => timed_add TUser now x | None => x end)).
     { destruct timed; auto. apply (PHS_of x); [apply PH_timed_add_user, H1 | intros X; exfalso; revert X; unfold timed_add; cases; sproj; congruence
         | unfold timed_add; cases; reflexivity | unfold timed_add; cases; reflexivity | exact H1]. }
